@@ -68,6 +68,10 @@ def scenarios():
     add("out_is_dir", {"outOpens": 0}, out="adir")
     add("name_overflow", {"outWrites": 0}, opts=["-n32767"])
     add("errfile_unwritable", {"errFileOpens": 0}, errfile="nodir/err.txt")
+    # an error file that is one of the run's own files must be refused, not written over them
+    add("errfile_is_input_font", {"errFileOpens": 0}, errfile="in.ttf")
+    add("errfile_is_link_to_input_font", {"errFileOpens": 0}, errfile="link.ttf")
+    add("errfile_is_gdl_file", {"errFileOpens": 0}, errfile="./p.gdl")
     add("syntax_and_errfile_unwritable", {"parseOk": 0, "errFileOpens": 0}, gdl=SYNTAX, errfile="nodir/err.txt")
     add("semantic_error_w_names_error_ids", {"preCompileOk": 0}, gdl=SEMANTIC, opts=["-w3139", "-w3137", "-w3134", "-w3141", "-w3162", "-w139"])
     add("syntax_error_w_names_error_ids", {"parseOk": 0}, gdl=SYNTAX, opts=["-w103", "-w102", "-w139", "-w1113"])
